@@ -758,6 +758,39 @@ def preprocess_depends_non_header(p: Project) -> None:
     p.expect = [('final.txt', 'all')]
 
 
+@entry('same-name-different-dirs', ['gcc'], [{'layout': 'mirror'}], {'layout': ['mirror'], 'default_library': DEFLIB},
+       'generate_ending: `all` / meson-test-prereq list targets by path (two targets in different directories may share a file name)',
+       'two default-built executables and two test-only executables whose output FILE NAMES coincide, in different directories')
+def same_name_different_dirs(p: Project) -> None:
+    L = head(p, ['c'])
+    L += ["subdir('tools/a')", "subdir('tools/b')", "subdir('tests/x')", "subdir('tests/y')"]
+    for d in ('a', 'b'):
+        p.files[f'tools/{d}/meson.build'] = "executable('tool', 'main.c')\n"
+        p.files[f'tools/{d}/main.c'] = 'int main(void) { return 0; }\n'
+    for d in ('x', 'y'):
+        p.files[f'tests/{d}/meson.build'] = f"check = executable('check', 'check.c', build_by_default: false)\ntest('{d}', check)\n"
+        p.files[f'tests/{d}/check.c'] = 'int main(void) { return 0; }\n'
+    p.files['meson.build'] = '\n'.join(L) + '\n'
+    p.expect = [('tool', 'all'), ('check', 'meson-test-prereq')]
+
+
+# (mirror layout only: under layout=flat the consumer names meson-out/meson-out/..., one more member of the recorded
+#  flat-layout family - see known_findings.json, corpus '259 preprocess' --layout=flat)
+@entry('fortran-preprocess', ['gfortran'], [{'layout': 'mirror'}], {'layout': ['mirror'], 'buildtype': ['debug', 'release']},
+       'add_dependency_scanner_entries_to_element / generate_target for a CompileTarget of a language that uses dyndep scanning',
+       'fc.preprocess() of a Fortran source that defines a module, compiled into an executable that uses the module')
+def fortran_preprocess(p: Project) -> None:
+    L = ["project('feat " + p.name + "', 'fortran', default_options: ['warning_level=0'])", "gen = find_program('gen.py')"]
+    L.append("fc = meson.get_compiler('fortran')")
+    L.append("pp = fc.preprocess('ppmod.F90', output: '@BASENAME@.f90')")
+    L.append("exe = executable('fpp', pp, 'fmain.f90')")
+    L.append("test('fpp', exe)")
+    p.files['ppmod.F90'] = '#define ANSWER 42\nmodule ppmod\ncontains\ninteger function answer()\nanswer = ANSWER\nend function\nend module\n'
+    p.files['fmain.f90'] = 'program m\nuse ppmod\nif (answer() /= 42) stop 1\nend program\n'
+    p.files['meson.build'] = '\n'.join(L) + '\n'
+    p.expect = [('fpp', 'all'), ('fpp', 'meson-test-prereq')]
+
+
 @entry('ct-depfile-string-depends', ['gcc'], [{'layout': 'mirror'}], {'layout': LAYOUT},
        'generate_custom_target: depfile (CUSTOM_COMMAND_DEP), target.extra_depends -> get_paths_for_dep_outputs',
        'custom_target with depfile: whose depfile names a generated file; that file reaches the command only as a string path + depends:')
